@@ -116,20 +116,25 @@ impl C04 {
             if let (Some(li), true) = (c.idx("lock_config"), *slot == "position_authority") {
                 if let Some(a) = v.pre.get(&v.ix.accounts[li].pubkey) {
                     if a.owner == ix::wp() && a.data.len() >= 72 {
-                        let mut d = (*a.data).clone();
-                        d[8..40].copy_from_slice(scratch_key(salt, 4201).as_ref()); // another position
-                        d[40..72].copy_from_slice(scratch_key(salt, 4202).as_ref()); // its holder
-                        let fk = scratch_key(salt, 4203);
-                        let mut f = base.clone();
-                        f.put(fk, Account::new(a.lamports, d.clone(), a.owner));
-                        let mut ixn = v.ix.clone();
-                        ixn.accounts[li].pubkey = fk;
-                        let r = exec(&f, ixn);
-                        cov.eval(format!("{}|lock_config|record_of_another_position", name));
-                        self.cell(format!("{} / lock_config / lock record of another position of the same pool", name), !r.ok);
-                        if r.ok {
-                            out.push(v04("foreign_record_changed", idx, format!("{}: succeeded with the lock record of another position in the `lock_config` slot (that holder did not sign)", name)));
-                            return;
+                        for other_holder in [true, false] {
+                            let mut d = (*a.data).clone();
+                            d[8..40].copy_from_slice(scratch_key(salt, 4201).as_ref()); // another position
+                            if other_holder {
+                                d[40..72].copy_from_slice(scratch_key(salt, 4202).as_ref()); // held by somebody else
+                            }
+                            let fk = scratch_key(salt, 4203);
+                            let mut f = base.clone();
+                            f.put(fk, Account::new(a.lamports, d.clone(), a.owner));
+                            let mut ixn = v.ix.clone();
+                            ixn.accounts[li].pubkey = fk;
+                            let r = exec(&f, ixn);
+                            let label = if other_holder { "lock record of another holder's position" } else { "lock record of another position of the same holder" };
+                            cov.eval(format!("{}|lock_config|{}", name, label));
+                            self.cell(format!("{} / lock_config / {}", name, label), !r.ok);
+                            if r.ok {
+                                out.push(v04("foreign_record_changed", idx, format!("{}: succeeded with the {} in the `lock_config` slot", name, label)));
+                                return;
+                            }
                         }
                     }
                 }
